@@ -306,12 +306,37 @@ def docClass (htmlAttrs bodyAttrs : List Attr) (title : Option Str) (metas : Lis
   else if anyStr (· = cCr) ss then "cr-char"
   else "unexpected"
 
+/-- does some element of the view satisfy `p tag kids`? -/
+partial def anyElem (p : Str → List VNode → Bool) : List VNode → Bool
+  | [] => false
+  | .elem t _ ks :: r => p t ks || anyElem p ks || anyElem p r
+  | .seq ks :: r => anyElem p ks || anyElem p r
+  | .vec ks :: r => anyElem p ks || anyElem p r
+  | .island _ _ ks :: r => anyElem p ks || anyElem p r
+  | .islandChildren ks :: r => anyElem p ks || anyElem p r
+  | _ :: r => anyElem p r
+
+/-- number of string / primitive items directly in a child list (through containers) -/
+partial def leafCount : List VNode → Nat
+  | [] => 0
+  | .text _ :: r => 1 + leafCount r
+  | .prim _ :: r => 1 + leafCount r
+  | .seq ks :: r => leafCount ks + leafCount r
+  | .vec ks :: r => leafCount ks + leafCount r
+  | _ :: r => leafCount r
+
 /-- known-finding class of a failing view -/
 def viewClass (v : List VNode) : String :=
   let ss := vKidsStrings v
-  if !vRawTextFreeKids v then "raw-text-child"
+  -- F-C06-1: string children of script / style / noscript (and of textarea before fix-c06-3)
+  if anyElem (fun t ks => !escapeChildren t && !(t = tTextarea && textareaEscaped) && vHasTextKids ks) v
+    then "raw-text-child"
   else if anyStr (· = cNul) ss then "nul-char"
   else if anyStr (· = cCr) ss then "cr-char"
+  -- repaired textarea: several strings are still joined by a literal `<!>` (view shape, F-C18-2)
+  else if anyElem (fun t ks => t = tTextarea && textareaEscaped && leafCount ks ≥ 2) v then "rcdata-marker"
+  else if anyElem (fun t ks => t = tTextarea && textareaEscaped && !textareaLfGuard &&
+      (vRawTextKids ks).head? = some cLf) v then "textarea-leading-newline"
   else if vHasInnerHtmlKids v then "inner-html"
   else "unexpected"
 
